@@ -3,7 +3,7 @@
 set -e
 OUT=/verif/build/findings; mkdir -p $OUT
 SRC=${SB_REPO:-/repo}/src
-FLAGS="-O1 -g -fsanitize=address,undefined -fno-sanitize-recover=undefined -fno-omit-frame-pointer -I${SB_REPO:-/repo}/include"
+FLAGS="-O1 -g -fsanitize=address,undefined,float-cast-overflow -fno-sanitize-recover=undefined,float-cast-overflow -fno-omit-frame-pointer -I${SB_REPO:-/repo}/include"
 pids=()
 for f in buffer crc32 error parsing utils formats/binary lights/colors rth_plan/rth_plan trajectory/builder trajectory/poly trajectory/trajectory trajectory/stats yaw_control/yaw_control; do
   gcc -std=gnu99 $FLAGS -c $SRC/$f.c -o $OUT/$(basename $f).o &
